@@ -28,6 +28,7 @@ K_RENAMED_IN = "renamed-input-edge-routed-to-entrypoint"
 K_RENAMED_OUT = "renamed-output-edge-not-drawn-from-expanded-container"
 K_MM_RENAMED_OUT = "mermaid-renamed-output-edge-from-undeclared-data-node"
 K_SCOPE = "same-name-in-renamed-scope-taken-for-the-value"
+K_SIBLING_NAME = "separate-outputs-same-output-name-in-sibling-containers"
 
 
 # ---------------------------------------------------------------------------------------------
@@ -181,6 +182,22 @@ def classify(rec, rd, res):
         found.append(("complete:gate-to-END", {"gate": n}))
     if "ValidState" in res["failed"]:
         found.append(("state:invalid-expansion-state", {"expanded": rd["expanded"]}))
+    if rd["sep"] == 1:
+        # narrow class of a known defect: in SEPARATE-outputs mode, an output NAME produced by leaf nodes of two different
+        # containers (one sub-graph used twice): the edge to the consumer starts at the other container's producer
+        def leaf_producers(v):
+            return {n for n in view.par if v in view.outs[n] and not any(view.par.get(m) == n for m in view.par)}
+        def twice(v):
+            cs = {view.par.get(n) for n in leaf_producers(v)}
+            return len(cs) >= 2 and G.NONE not in cs and None not in cs
+        out = []
+        for k, d in found:
+            if k == "complete:data" and twice(d["missing"]["val"]) and d["missing"]["src"] in view.exp:
+                k = K_SIBLING_NAME
+            elif k == "sound" and any(v in view.outs.get(d["unsound"][0], ()) and twice(v) for v in view.ins.get(d["unsound"][1], ())):
+                k = K_SIBLING_NAME
+            out.append((k, d))
+        found = out
     return found
 
 
